@@ -125,6 +125,20 @@ def match_finding(findings, v):
     return None
 
 
+def _mutable(x):
+    if x is None or isinstance(x, (bool, int, float, str, bytes, tuple, frozenset, type)) or callable(x):
+        return False
+    try:
+        import numpy as np
+        if isinstance(x, np.generic):
+            return False
+        if isinstance(x, np.ndarray):
+            return True
+    except Exception:  # pragma: no cover
+        pass
+    return isinstance(x, (list, dict, set, bytearray)) or hasattr(x, '__dict__')
+
+
 # --------------------------------------------------------------------------------------
 # recorder
 # --------------------------------------------------------------------------------------
@@ -146,12 +160,15 @@ class Recorder(object):
         self.skipped = Counter()
         self.maxdev = {}        # name -> (value, case)
         self._case = None
+        self.guard = False
+        self._held = []
 
     # -- bookkeeping ------------------------------------------------------------
     def begin_case(self, sub, case):
         self.sub = sub
         self._case = case
         self.cases += 1
+        self._held = []
 
     def transition(self, n=1):
         self.transitions += n
@@ -187,12 +204,40 @@ class Recorder(object):
             self.maxdev[k] = (value, jsonable(self._case if case is None else case))
 
     def call(self, fn, *a, **kw):
-        """one real transition: returns ('ok', value) or ('raise', exception)"""
+        """one real transition: returns ('ok', value) or ('raise', exception).
+        With self.guard (sub-checks created with guard=True) every call is also a purity probe: mutable arguments (lists,
+        dicts, arrays, objects) must be unchanged afterwards, and mutable values returned by the previous calls must still be
+        what they were (a library that hands out a shared work array or cached object is caught when the next call
+        overwrites it)."""
         self.transitions += 1
+        if not self.guard:
+            try:
+                return 'ok', fn(*a, **kw)
+            except Exception as e:  # the library's exceptions are outcomes, not crashes
+                return 'raise', e
+        from gpmc.snapshot import canon
+        margs = [(i, x, canon(x)) for i, x in enumerate(list(a) + list(kw.values())) if _mutable(x)]
         try:
-            return 'ok', fn(*a, **kw)
-        except Exception as e:  # the library's exceptions are outcomes, not crashes
-            return 'raise', e
+            st, r = 'ok', fn(*a, **kw)
+        except Exception as e:
+            st, r = 'raise', e
+        name = getattr(fn, '__name__', 'call')
+        for i, x, c in margs:
+            if canon(x) != c:
+                self.fail('%s modified an argument supplied by the caller (argument %d, %s)' % (name, i, type(x).__name__),
+                          site='purity:argument:' + name, observed=repr(x)[:200], coords={'fn': name, 'arg': i})
+        for (hn, ho, hc) in self._held:
+            if ho is not r and canon(ho) != hc:
+                self.fail('a value returned earlier by %s was changed by a later call to %s (results share storage)' % (hn, name),
+                          site='purity:result-overwritten:' + hn, observed=repr(ho)[:200], coords={'fn': name, 'earlier': hn})
+                self._held = []
+                break
+        if st == 'ok':
+            for part in (r if isinstance(r, tuple) else (r,)):
+                if _mutable(part) and not any(part is x for _, x, _ in margs):
+                    self._held.append((name, part, canon(part)))
+            del self._held[:-4]
+        return st, r
 
     # -- verdicts ---------------------------------------------------------------
     def fail(self, msg, site=None, observed=None, expected=None, tol=None, coords=None, case=None):
@@ -254,7 +299,7 @@ class Sub(object):
     parallel  : False to run in the parent process (e.g. for checks that manage threads)
     """
 
-    def __init__(self, name, gen, evalf, chunk=200, floor=1, parallel=True, doc='', timeout=0):
+    def __init__(self, name, gen, evalf, chunk=200, floor=1, parallel=True, doc='', timeout=0, guard=False):
         self.name = name
         self.gen = gen
         self.evalf = evalf
@@ -262,6 +307,7 @@ class Sub(object):
         self.floor = floor
         self.parallel = parallel
         self.doc = doc
+        self.guard = guard          # every rec.call() is also an argument-unchanged / earlier-results-intact probe
         self.timeout = timeout      # seconds per case (0 = default 180 s; VERIF_CASE_TIMEOUT overrides)
 
 
@@ -296,6 +342,7 @@ def eval_one(sub, case, rec):
     longer converges) must end as a reported violation, not as a check that never returns"""
     import signal
     rec.begin_case(sub.name, case)
+    rec.guard = bool(getattr(sub, 'guard', False))
     if _TIMEOUTS.get(sub.name, 0) >= 2:
         # the violation is already recorded twice by this worker; do not spend the time limit on every remaining case
         rec.skip('not run: the library already timed out twice in this sub-check')
